@@ -254,7 +254,23 @@ def replay(beh, cls, seed=0):
     Returns (failures: list of (kf, why), number of comparisons)."""
     import cnfgen
     from cnfgen.formula.opb import OPB
-    F = cnfgen.CNF() if cls == "CNF" else OPB()
+    F = OPB() if cls == "OPB" else cnfgen.CNF()
+    loaded = 0
+    if cls == "CNFfile":
+        # the state before the first group is reached by another history: the formula is read from a DIMACS
+        # file declaring that many variables and holding those clauses
+        pre = []
+        for st in beh["steps"]:
+            if st["op"] == "new" or st["res"] not in ("ok",):
+                break
+            pre.append(st)
+        if pre:
+            cl = [st["c"] for st in pre if st["op"] == "clause"]
+            text = "p cnf %d %d\n" % (pre[-1]["numvar"], len(cl)) + "".join(
+                " ".join(map(str, list(c) + [0])) + "\n" for c in cl)
+            F = cnfgen.CNF.from_file(io.StringIO(text))
+            loaded = len(pre)
+        cls = "CNF"
     rng = random.Random(seed)
     details = beh["groups"]
     fmts = {d["no"]: label_format(d["no"], d["lstyle"], d["arity"]) for d in details}
@@ -266,7 +282,11 @@ def replay(beh, cls, seed=0):
     for t, st in enumerate(beh["steps"], start=1):
         op = st["op"]
         where = "step%d:%s" % (t, op)
-        if op == "new":
+        if t < loaded:
+            continue
+        if t == loaded:
+            where += ":read_from_dimacs"
+        elif op == "new":
             no = st["ngroups"]
             d = details[no - 1]
             where += "_" + d["kind"]
@@ -502,6 +522,9 @@ def main(argv=None):
         for j, beh in enumerate(behs):
             for cls in ("CNF", "OPB"):
                 items.append((cls, tag, j, beh, ck.seed * 7919 + j))
+            if tag in ("hist3", "hist4", "walks") and beh["steps"] and beh["steps"][0]["op"] != "new" \
+                    and (tag == "walks" or j % 5 == 0):
+                items.append(("CNFfile", tag, j, beh, ck.seed * 7919 + j))
     ck.count("binding_demonstrations_flipped", binding_demo(got["hist3"]))
     results = common.pmap(_replay_item, items)
     ncmp = 0
